@@ -76,6 +76,17 @@ def run(ctx, ck) -> None:
             ck.incomplete('T2', fn, f'{owner.name}.transpose matches no adjoint schema of the table', instance=owner.name)
             continue
         ok, why = schema(table, owner, fn)
+        if not ok and owner.name == 'MoveAxisOperator':
+            # written another way: decided by following the axes through the operator and its transpose (C13.A3)
+            from . import c13
+
+            sub = type(ck)(ck.pid)
+            c13._moveaxis_transpose(ctx, sub, owner, fn, why)
+            for o in sub.obs:
+                o.rule = f'{ck.pid}.T2'
+                o.construct = o.construct.replace('[moveaxis transpose]', f'[{owner.name}]')
+                ck.obs.append(o)
+            continue
         ck.expect('T2', ok, fn, why, f'{owner.name}.transpose is not the adjoint construction of its class: {why}', instance=owner.name)
 
     # ------------------------------------------------------------------ T4 lazy duals
